@@ -98,8 +98,9 @@ def fieldSchema (rq : Request) (f : Field) : Json :=
     else if f.kind == .message && f.emptyBehavior == 2 then sObj [("oneOf", Json.arr [s, typed "null"])]
     else s
 
+/-- a message without fields is outside the model: the renderer drops an empty `properties` map. -/
 def modelled (m : Message) : Bool :=
-  !(OaComp.isRootUnwrap m) && !(m.fields.any (·.flatten)) && !(m.oneofs.any (·.hasConfig))
+  !(OaComp.isRootUnwrap m) && !(m.fields.any (·.flatten)) && !(m.oneofs.any (·.hasConfig)) && !m.fields.isEmpty
 
 /-- `buildObjectSchema` for a plain object message (without `required`). -/
 def messageSchema (rq : Request) (m : Message) : Json :=
@@ -107,6 +108,106 @@ def messageSchema (rq : Request) (m : Message) : Json :=
     match base with
     | .obj kvs => Json.obj (kvs ++ [("properties".toList, Json.obj (m.fields.map fun f => (f.json, fieldSchema rq f)))])
     | j => j
+
+/-! ### annotation-driven layouts (`buildRootUnwrapSchema`, `buildFlattenedObjectSchema`,
+`buildFlattenedOneofSchema`, `buildNestedOneofSchema`) -/
+
+def strEnum (vals : List Str) : Json := sObj [("type", sStr "string"), ("enum", Json.arr (vals.map Json.str))]
+
+def propsObj (ps : List (Str × Json)) : Json := Json.obj ps
+
+/-- members of discriminated oneofs (`oneofFields`). -/
+def inDiscriminatedOneof (m : Message) (f : Field) : Bool :=
+  match f.oneof with
+  | some o => m.oneofs.any fun d => d.name == o && d.hasConfig
+  | none => false
+
+def variantsOf (m : Message) (o : OneofDecl) : List Field := m.fields.filter (·.oneof == some o.name)
+
+def rootUnwrapSchema (rq : Request) (f : Field) : Json :=
+  if f.card == .map then
+    let ap :=
+      if f.kind == .message then
+        (match rq.findMessage f.typeName with
+         | some vm => (match vm.fields.find? (fun u => u.unwrap && u.card == .repeated) with
+            | some u => sObj [("type", sStr "array"), ("items", scalarSchema rq u)]
+            | none => refTo f.typeName)
+         | none => refTo f.typeName)
+      else scalarSchema rq (mapValueField f)
+    sObj [("type", sStr "object"), ("additionalProperties", ap)]
+  else sObj [("type", sStr "array"), ("items", scalarSchema rq f)]
+
+def childFields (rq : Request) (f : Field) : List Field :=
+  match rq.findMessage f.typeName with
+  | some c => c.fields
+  | none => []
+
+def flattenedObjectSchema (rq : Request) (m : Message) : Json :=
+  let plain := m.fields.filter (!·.flatten)
+  let base := if plain.isEmpty then [] else
+    [Json.obj [("type".toList, sStr "object"), ("properties".toList, propsObj (plain.map fun f => (f.json, fieldSchema rq f)))]]
+  let flats := (m.fields.filter fun f => f.flatten && f.kind == .message).map fun f =>
+    Json.obj [("type".toList, sStr "object"),
+      ("properties".toList, propsObj ((childFields rq f).map fun c => (f.flattenPrefix ++ c.json, fieldSchema rq c)))]
+  sObj [("allOf", Json.arr (base ++ flats))]
+
+/-- `orderedmap.Set`: a later property of the same name replaces the earlier one. -/
+def lastWins (l : List (Str × Json)) : List (Str × Json) :=
+  l.foldl (fun acc p => acc.filter (fun q => q.1 != p.1) ++ [p]) []
+
+def variantSchemaName (m : Message) (f : Field) : Str := m.name ++ '_' :: OaComp.variantValue f
+
+/-- the per-variant component schemas of the flattened discriminated oneofs of `m`. -/
+def flattenedVariantComponents (rq : Request) (m : Message) : List (Str × Json) :=
+  let common := (m.fields.filter fun f => !(inDiscriminatedOneof m f)).map fun f => (f.json, fieldSchema rq f)
+  (m.oneofs.filter fun o => o.hasConfig && o.flatten).flatMap fun o =>
+    (variantsOf m o).map fun v =>
+      let own := if v.kind == .message then (childFields rq v).map fun c => (c.json, fieldSchema rq c) else []
+      (variantSchemaName m v,
+       Json.obj [("type".toList, sStr "object"),
+         ("properties".toList, propsObj (lastWins (common ++ [(o.discriminator, strEnum [OaComp.variantValue v])] ++ own))),
+         ("required".toList, Json.arr [Json.str o.discriminator])])
+
+def compRef (name : Str) : Json := Json.obj [("$ref".toList, Json.str ("#/components/schemas/".toList ++ name))]
+
+def flattenedOneofComponent (m : Message) : Json :=
+  let flat := m.oneofs.filter fun o => o.hasConfig && o.flatten
+  let refs := flat.flatMap fun o => (variantsOf m o).map fun v => compRef (variantSchemaName m v)
+  let disc := match flat with
+    | o :: _ => [("discriminator".toList, Json.obj [("propertyName".toList, Json.str o.discriminator),
+        ("mapping".toList, Json.obj ((variantsOf m o).map fun v =>
+          (OaComp.variantValue v, Json.str ("#/components/schemas/".toList ++ variantSchemaName m v))))])]
+    | [] => []
+  Json.obj ([("oneOf".toList, Json.arr refs)] ++ disc)
+
+def nestedOneofComponent (rq : Request) (m : Message) : Json :=
+  let discs := m.oneofs.filter (·.hasConfig)
+  let base := (m.fields.filter fun f => !(inDiscriminatedOneof m f)).map fun f => (f.json, fieldSchema rq f)
+  let discProps := discs.map fun o => (o.discriminator, strEnum ((variantsOf m o).map OaComp.variantValue))
+  let props := (base ++ discProps)
+  let variants := discs.flatMap fun o => (variantsOf m o).map fun v =>
+    Json.obj [("type".toList, sStr "object"),
+      ("properties".toList, propsObj [(v.json, if v.kind == .message then refTo v.typeName else scalarSchema rq v)])]
+  let disc := match discs.getLast? with
+    | some o => [("discriminator".toList, Json.obj [("propertyName".toList, Json.str o.discriminator),
+        ("mapping".toList, Json.obj (((variantsOf m o).filter (·.kind == .message)).map fun v =>
+          (OaComp.variantValue v, Json.str ("#/components/schemas/".toList ++ shortName v.typeName))))])]
+    | none => []
+  Json.obj ([("type".toList, sStr "object"), ("properties".toList, propsObj props)] ++
+    (if variants.isEmpty then [] else [("oneOf".toList, Json.arr variants)]) ++ disc)
+
+/-- `buildObjectSchema`: which layout applies (same precedence as the generator). -/
+def componentSchema (rq : Request) (m : Message) : Json :=
+  if OaComp.isRootUnwrap m then
+    (match m.fields with | [f] => rootUnwrapSchema rq f | _ => Json.null)
+  else if m.fields.any (·.flatten) then flattenedObjectSchema rq m
+  else if m.oneofs.any (·.hasConfig) then
+    (if m.oneofs.any (fun o => o.hasConfig && o.flatten) then flattenedOneofComponent m else nestedOneofComponent rq m)
+  else messageSchema rq m
+
+/-- every layout is modelled except a field-less plain message (empty `properties` is not rendered). -/
+def componentModelled (m : Message) : Bool :=
+  OaComp.isRootUnwrap m || m.fields.any (·.flatten) || m.oneofs.any (·.hasConfig) || !m.fields.isEmpty
 
 /-! ### built-in error schemas (`addBuiltinErrorSchemas`) -/
 
